@@ -303,6 +303,57 @@ func (w *World) registerHTTPIntrinsics() {
 		}
 		return e.mkSlice(types.Typ[types.Uint8], es)
 	}
+	// net.IP.String: an injective function of the family-normalised bytes, with
+	// disjoint images for IPv4 (incl. IPv4-mapped) and IPv6
+	I["(net.IP).String"] = func(e *Exec, fn *ssa.Function, a []Value) Value {
+		sl, ok := a[0].(*SliceVal)
+		if !ok {
+			e.unsupported("net.IP.String on %T", a[0])
+		}
+		bs := e.sliceElems(sl)
+		toT := func(vs []Value) []*Term {
+			var ts []*Term
+			for _, v := range vs {
+				ts = append(ts, v.(*Term))
+			}
+			return ts
+		}
+		zero, ff := Value(mkInt(0)), Value(mkInt(255))
+		if e.bvMode {
+			zero, ff = mkBV(0, 8), mkBV(255, 8)
+		}
+		switch len(bs) {
+		case 0:
+			return mkStr("<nil>")
+		case 4:
+			return mkConcat(mkStr("4:"), mkUF("ipstr4", SStr, toT(bs)...))
+		case 16:
+			var conds []*Term
+			for i := 0; i < 10; i++ {
+				conds = append(conds, e.valueEq(bs[i], zero))
+			}
+			conds = append(conds, e.valueEq(bs[10], ff), e.valueEq(bs[11], ff))
+			return mkIte(mkAnd(conds...), mkConcat(mkStr("4:"), mkUF("ipstr4", SStr, toT(bs[12:])...)), mkConcat(mkStr("6:"), mkUF("ipstr16", SStr, toT(bs)...)))
+		}
+		return mkConcat(mkStr("?"), mkUF("ipstrbad", SStr, mkInt(int64(len(bs)))))
+	}
+	I["internal/bytealg.Equal"] = func(e *Exec, fn *ssa.Function, a []Value) Value {
+		x, okx := a[0].(*SliceVal)
+		y, oky := a[1].(*SliceVal)
+		if !okx || !oky {
+			return mkEq(e.bytesTerm(a[0]), e.bytesTerm(a[1]))
+		}
+		if x.n != y.n {
+			return tFalse
+		}
+		var cs []*Term
+		xs, ys := e.sliceElems(x), e.sliceElems(y)
+		for i := range xs {
+			cs = append(cs, e.valueEq(xs[i], ys[i]))
+		}
+		return mkAnd(cs...)
+	}
+	I["(net.IPMask).String"] = func(e *Exec, fn *ssa.Function, a []Value) Value { return e.fresh("maskstr", SStr) }
 	I["net.JoinHostPort"] = func(e *Exec, fn *ssa.Function, a []Value) Value {
 		hst, prt := a[0].(*Term), a[1].(*Term)
 		return mkIte(mkContains(hst, mkStr(":")), mkConcat(mkStr("["), hst, mkStr("]:"), prt), mkConcat(hst, mkStr(":"), prt))
